@@ -565,6 +565,16 @@ func verifLemmaSourceConnected(o *IPFSLog, A iface.IPFSLogOrderedEntries) {
 //@ @wf ensures [merge-replaces-only-the-heads-map-by-a-new-one] l != nil && size < 0 ==> l.Entries == old(l.Entries) && l.Next == old(l.Next) && (l.heads == old(l.heads) || (fresh(l.heads) && fresh(om(l.heads).values)))
 //@ @wf ensures [merge-keeps-the-logs-separate] l != nil && otherLog != nil && otherLog.(*IPFSLog) != l ==> sepLogs(l, otherLog.(*IPFSLog))
 //@ @wf ensures [merge-with-itself-or-another-log-id-changes-nothing] err == nil && l != nil && otherLog != nil && (otherLog.(*IPFSLog) == l || l.ID != otherLog.(*IPFSLog).ID) ==> l.heads == old(l.heads) && l.Entries == old(l.Entries) && (forall k string :: has(ent(l), k) == old(has(ent(l), k)) && has(hds(l), k) == old(has(hds(l), k)))
+// ---- C16 (facets wf + lin + trunc): a size-bounded merge keeps the NEWEST entries of the merged log ----
+//@ @trunc requires l != nil ==> preorder(l.SortFn) && causalOrd(l.SortFn, l)
+//@ @trunc requires l != nil && otherLog != nil && otherLog.(*IPFSLog) != l ==> causalOrd(l.SortFn, otherLog.(*IPFSLog))
+//@ @trunc assert "nextsFromNewItems := map[string]struct{}{}" [merged-log-keeps-the-causal-ordering] causalOrd(l.SortFn, l)
+//@ @trunc assert "l.heads = entry.NewOrderedMapFromEntries(mergedHeads)" [merged-log-is-well-formed-before-truncation] wfLog(l) && isOM(l.Next) && l.heads != nil && causalOrd(l.SortFn, l)
+//@ @trunc assert "tmp := l.values().Slice()" [every-merged-entry-is-in-the-linearisation] (forall k string :: has(ent(l), k) ==> k != "") ==> forall y string :: has(ent(l), y) ==> exists i int :: 0 <= i && i < len(tmp) && ehash(tmp[i]) == y
+//@ @trunc assert "tmp := l.values().Slice()" [linearisation-is-ascending] forall i int, j int :: 0 <= i && i < j && j < len(tmp) ==> ordH(l.SortFn, ehash(tmp[i]), ehash(tmp[j])) <= 0
+//@ @trunc assert "entries := entry.NewOrderedMapFromEntries(tmp)" [dropped-entries-are-not-newer-than-kept-ones] (forall k string :: has(ent(l), k) ==> k != "") ==> forall y string, i int :: has(ent(l), y) && 0 <= i && i < len(tmp) && (forall j int :: 0 <= j && j < len(tmp) ==> ehash(tmp[j]) != y) ==> ordH(l.SortFn, y, ehash(tmp[i])) <= 0
+//@ @trunc assert "entries := entry.NewOrderedMapFromEntries(tmp)" [kept-index-holds-exactly-the-kept-slice] holdsExactly(entries, tmp)
+//@ @trunc ensures [bounded-merge-keeps-the-newest-entries] err == nil && size >= 0 && l != nil && otherLog != nil && otherLog.(*IPFSLog) != l && l.ID == otherLog.(*IPFSLog).ID && (forall k string :: old(has(ent(l), k)) || old(has(ent(otherLog.(*IPFSLog)), k)) ==> k != "") ==> forall x string, y string :: has(ent(l), x) && (old(has(ent(l), y)) || old(has(ent(otherLog.(*IPFSLog)), y))) && !has(ent(l), y) ==> ordH(l.SortFn, y, x) <= 0
 //@   replay joinsize
 //@   loop 0
 //@     invariant validEntries(newItems) && fresh(newItems)
